@@ -29,6 +29,7 @@ func (o *OMap) Len() int {
 
 // find returns the index of key, forking on symbolic equalities.
 func (o *OMap) find(m *Machine, key Value) int {
+	m.checkHashable(key)
 	if o == nil {
 		return -1
 	}
